@@ -153,6 +153,9 @@ type CtxTimeline struct {
 	KilledIdx  int      // step at which it was observed
 	Restarted  bool     // went through a zero-height restart: lifecycle bounds are not judged across it
 	Providers  []string // providers as named by the consumer (create / accepted update), hex
+	NamedFreq  uint64   // frequency as named by the consumer (0 = never named: defaults to the timeout)
+	NamedTimeout int64
+	NamedSet   bool
 }
 
 type Mon struct {
